@@ -20,9 +20,9 @@ E1 = "E1 simrt: generated C + w2c2_base.h + futex/*.c under the simcore baton sc
 CHECKS = {
  "C05": dict(engine="simrt", cat="exploration", tech="deterministic simulation: seeded operation histories with injected allocation failures, checked op-by-op against a byte-array reference model",
    text="Seeded histories (20-120 ops) of every load/store flavour, 18 composite functions (store; store of another type or width; load at one address), size, grow (incl. limits and wrap-around deltas, injected realloc failure), copy/fill/init on the real generated code; after every operation results, page count and the whole memory are compared with a byte-array model. Exploration of the history/fault half of the property over one generated module family, not translation validation of arbitrary programs.",
-   note="only in-bounds accesses are generated; model is little-endian byte array; one generated module (mem: 1..8 pages, passive segments) built four ways: instrumented clang -O1 with array and gnu-ld data embedding, plain gcc -O2, plain clang -O3", ref="5/C05"),
- "C16": dict(engine="simrt", cat="exploration", tech="deterministic simulation: seeded schedules (random walk + PCT) over parked real threads, linearizability / sequential-consistency check of atomic-op histories per 8-byte word and jointly over all touched words; x86-TSO store-buffer model for accesses weaker than seq_cst",
-   text="2-4 simulated threads of one shared-memory instance family execute seeded mixes of all 63 atomic opcodes (two static offsets, mixed widths on hot words, operands with bits above the access width); every history is checked for linearizability against a byte-array register specification including the final memory. Runs on the native little-endian build (builtins, indivisible steps) and on the forced big-endian build whose RMWs are mutex-based sequences that really interleave.",
+   note="only in-bounds accesses are generated; model is little-endian byte array; two generated modules (mem: non-shared 1..8 pages with passive segments, built four ways; atom: shared memory 1..6 pages, two builds); fresh heap memory is pre-filled with 0xBE so zeroing has to be done by the code under test; four builds: instrumented clang -O1 with array and gnu-ld data embedding, plain gcc -O2, plain clang -O3", ref="5/C05"),
+ "C16": dict(engine="simrt", cat="exploration", tech="deterministic simulation: seeded schedules (random walk + PCT) over parked real threads, linearizability / sequential-consistency check of atomic-op histories per 8-byte word and jointly over all touched words; happens-before data-race detector over the accessed cells (little-endian build); x86-TSO store-buffer model for accesses weaker than seq_cst",
+   text="2-4 simulated threads of one shared-memory instance family execute seeded mixes of all 63 atomic opcodes (two static offsets, mixed widths on hot words, operands with bits above the access width); every history is checked for linearizability against a byte-array register specification including the final memory. Runs on the native little-endian build (builtins, indivisible steps; two modules: shared memory defined / imported), on the forced big-endian build whose RMWs are mutex-based sequences that really interleave, and on the big-endian build with the header's portable byte-swap macros.",
    note="interleavings of indivisible atomic steps plus delayed stores (TSO store buffer) for any access whose memory order is weaker than seq_cst; load reordering / non-multi-copy-atomic hardware not modelled; histories <= 28 ops; search budget 1e6 states (over-budget = unchecked, never a violation)", ref="5/C16"),
  "C17": dict(engine="simrt", cat="exploration", tech="deterministic simulation: seeded schedules, spurious wake-ups, simulated clock/timeouts; refinement of wait/notify histories against a sequential futex specification (R1-R8) plus bounded liveness after a fault-free drain",
    text="2-5 simulated threads run seeded wait32/wait64/notify/value-change operations (static offset 0 and non-zero, colliding hash buckets, timeouts -1/0/us/ms/s) under every lock/cond/load/store interleaving the scheduler draws, with spurious wake-ups and timer-vs-notify races; black-box rules on invoke/return events decide return codes, counts, no-lost-wake-up (incl. atomic check-and-enqueue), cross-address isolation and termination; ASan guards lifetimes.",
